@@ -22,6 +22,7 @@ TRIGGER = {'both': 'K-C20-a', 'bothsemi': 'K-C20-a', 'loopboth': 'K-C20-a',
            'marker': 'K-C20-b', 'marker2': 'K-C20-b',
            'underscore': 'K-C20-c',
            'selfsyntax': 'K-C20-i', 'selfindent': 'K-C20-i',
+           'dir_in_tripstr_skip': 'K-C20-j',
            'escaped': 'K-C20-d', 'true1': 'K-C20-e', 'ansi': 'K-C20-f', 'prefix': 'K-C20-g', 'cr': 'K-C20-h'}
 
 PLAIN = ['assign', 'expr', 'strexpr', 'print', 'noneexpr', 'multi', 'multiexpr', 'multiprint', 'compound',
@@ -38,7 +39,18 @@ PLAIN = ['assign', 'expr', 'strexpr', 'print', 'noneexpr', 'multi', 'multiexpr',
     'syn_eval', 'syn_eval_full', 'syn_eval_detail', 'syn_compile', 'syn_compile_full', 'indent_exec', 'indent_exec_full',
     'indent_exec_detail', 'tab_exec', 'multiline_msg', 'multiline_msg_detail', 'multiline_msg_ell',
     # comments inside a multi-line example
-    'multi_comment', 'compound_comment']
+    'multi_comment', 'compound_comment'] + [
+    # SCALE: many continuation lines, wants with 9..40 markers / wildcards / lines, long exception messages
+    'bigmulti', 'bigcompound', 'bigcall', 'manyblank', 'manyblank_ws', 'manyell', 'manyell_lines', 'manylines', 'manyline_msg',
+    'manyline_msg_ell', 'manynormws',
+    # exception classes from modules with 0..4 dots, nested classes
+    'dotexc0', 'dotexc1', 'dotexc2', 'dotexc3', 'dotexc4', 'dotexc_nested', 'dotexc2_detail', 'dotexc4_detail', 'dotexc_nested_detail',
+    'dotexc3_detail_bare',
+    # directive placements of the standard syntax
+    'minus_ell', 'minus_normws', 'minus_skip', 'minus_detail', 'plus_minus_one_comment', 'three_in_one', 'dir_nospace', 'dir_spaces',
+    'dir_in_string', 'dir_in_string2', 'unknown_opt', 'dir_second_comment', 'ell_literal_dots',
+    # interactions
+    'dir_in_tripstr_ell', 'printraise_multi', 'oldstyle_blankline', 'oldstyle_blankline_t', 'printraise_detail', 'raise_then_stdout']
 
 # examples that produce no output and have no want (they share a part with their silent neighbours in xdoctest)
 SILENT = ['assign', 'noneexpr', 'multi', 'funcdef', 'classdef', 'deco', 'tripstr', 'comment']
@@ -60,7 +72,15 @@ def make_namespace():
     def boom(k):
         raise KeyError('b%d' % k)
 
-    ns = {'T': T, 't': t, 'pv': pv, 'boom': boom, 'deco': (lambda f: f), '__name__': '__main__'}
+    def mkexc(dots, nested=False):
+        """an exception class that prints as pkg0.pkg1...[Outer.]Err<dots> (what format_exception_only shows)"""
+        cls = type('Err%d' % dots, (Exception,), {})
+        cls.__module__ = '.'.join('pkg%d' % i for i in range(dots)) if dots else 'builtins'
+        if nested:
+            cls.__qualname__ = 'Outer.Err%d' % dots
+        return cls
+
+    ns = {'T': T, 't': t, 'pv': pv, 'boom': boom, 'deco': (lambda f: f), 'mkexc': mkexc, '__name__': '__main__'}
     return ns, T
 
 
@@ -283,6 +303,131 @@ def example(kind, k):
             d['want'] = lambda out: '%s\n    ...\nIndentationError: whatever\n' % TB
     elif kind == 'tab_exec':
         src('exec("if %%d:\\n\\tx = 1\\n        y = 2" %% t(%d))' % K)
+    elif kind == 'bigmulti':
+        n = 9 + (K * 7) % 24
+        src(*(['m%d = [t(%d),' % (K, K)] + ['      %d,' % i for i in range(n)] + ['      0]']))
+    elif kind == 'bigcall':
+        n = 9 + (K * 5) % 20
+        src(*(['print(t(%d),' % K] + ['      %d,' % i for i in range(n)] + ['      "end")']))
+    elif kind == 'bigcompound':
+        n = 9 + (K * 3) % 20
+        src(*(['for i in [t(%d)]:' % K] + ['    v%d_%d = i + %d' % (K, i, i) for i in range(n)] + ['    print("big", v%d_%d)' % (K, n - 1)]))
+    elif kind in ('manyblank', 'manyblank_ws'):
+        n = 9 + (K * 7) % 32
+        src('print("\\n\\n".join(str(i) for i in range(t(%d) * 0 + %d)))' % (K, n))
+        if kind == 'manyblank':
+            d['want'] = lambda out: out.replace('\n\n', '\n<BLANKLINE>\n')
+        else:
+            d['want'] = lambda out: out.replace('\n\n', '\n<BLANKLINE>  \n')
+    elif kind == 'manyell':
+        n = 9 + (K * 7) % 32
+        src('print(" ".join("x%%d y%%d" %% (i, i * t(%d)) for i in range(%d)))' % (K, n))
+        d['directive'] = '+ELLIPSIS'
+        d['want'] = lambda out, n=n: ' '.join('x%d ...' % i for i in range(n)) + '\n'
+    elif kind == 'manyell_lines':
+        n = 9 + (K * 5) % 32
+        src('print("\\n".join("row %%d: %%d" %% (i, i * t(%d) %% 7) for i in range(%d)))' % (K, n))
+        d['directive'] = '+ELLIPSIS'
+        d['want'] = lambda out, n=n: '\n'.join('row %d: ...' % i for i in range(n)) + '\n'
+    elif kind == 'manylines':
+        n = 9 + (K * 11) % 32
+        src('print("\\n".join("line %%d" %% i for i in range(t(%d) * 0 + %d)))' % (K, n))
+    elif kind == 'manynormws':
+        n = 9 + (K * 5) % 32
+        src('print(list(range(t(%d) * 0 + %d)))' % (K, n))
+        d['directive'] = '+NORMALIZE_WHITESPACE'
+        d['want'] = lambda out: out.replace(', ', ',\n   ')
+    elif kind in ('manyline_msg', 'manyline_msg_ell'):
+        n = 9 + (K * 7) % 32
+        src('raise ValueError("\\n".join("detail %%d" %% i for i in range(t(%d) * 0 + %d)))' % (K, n))
+        if kind == 'manyline_msg_ell':
+            d['directive'] = '+ELLIPSIS'
+            d['want'] = lambda out, n=n: '%s\n    ...\nValueError: detail 0\n...\ndetail %d\n' % (TB, n - 1) if False else \
+                '%s\n    ...\nValueError: detail 0\ndetail 1\n...\ndetail %d\n' % (TB, n - 1)
+    elif kind in ('dotexc0', 'dotexc1', 'dotexc2', 'dotexc3', 'dotexc4'):
+        src('raise mkexc(%s)("m%%d" %% t(%d))' % (kind[-1], K))
+    elif kind == 'dotexc_nested':
+        src('raise mkexc(2, True)("m%%d" %% t(%d))' % K)
+    elif kind in ('dotexc2_detail', 'dotexc4_detail'):
+        nd = int(kind[6])
+        src('raise mkexc(%d)("m%%d" %% t(%d))' % (nd, K))
+        d['directive'] = '+IGNORE_EXCEPTION_DETAIL'
+        d['want'] = lambda out, nd=nd: '%s\n    ...\nother.path.Err%d: another message\n' % (TB, nd)
+    elif kind == 'dotexc3_detail_bare':
+        src('raise mkexc(3)("m%%d" %% t(%d))' % K)
+        d['directive'] = '+IGNORE_EXCEPTION_DETAIL'
+        d['want'] = lambda out: '%s\n    ...\nErr3\n' % TB
+    elif kind == 'dotexc_nested_detail':
+        src('raise mkexc(2, True)("m%%d" %% t(%d))' % K)
+        d['directive'] = '+IGNORE_EXCEPTION_DETAIL'
+        d['want'] = lambda out: '%s\n    ...\nErr2: x\n' % TB
+    elif kind == 'minus_ell':
+        src('print("a...b", t(%d))' % K)
+        d['directive'] = '-ELLIPSIS'
+    elif kind == 'minus_normws':
+        src('print("a  b", t(%d))' % K)
+        d['directive'] = '-NORMALIZE_WHITESPACE'
+    elif kind == 'minus_skip':
+        src('print(t(%d))' % K)
+        d['directive'] = '-SKIP'
+    elif kind == 'minus_detail':
+        src('raise ValueError("m%%d" %% t(%d))' % K)
+        d['directive'] = '-IGNORE_EXCEPTION_DETAIL'
+    elif kind == 'plus_minus_one_comment':
+        src('print("x", t(%d), "yz")' % K)
+        d['directive'] = '+NORMALIZE_WHITESPACE, -NORMALIZE_WHITESPACE, +ELLIPSIS'
+        d['want'] = lambda out: 'x ... yz\n'
+    elif kind == 'three_in_one':
+        src('raise ValueError("long message %%d end" %% t(%d))' % K)
+        d['directive'] = '+ELLIPSIS, +NORMALIZE_WHITESPACE, +IGNORE_EXCEPTION_DETAIL'
+        d['want'] = lambda out: '%s\n    ...\nValueError: long\n    ... end\n' % TB
+    elif kind == 'dir_nospace':
+        src('print("x", t(%d), "yz")' % K)
+        d['directive'] = '+ELLIPSIS'
+        d['dirprefix'] = '  #doctest:'
+        d['want'] = lambda out: 'x ... yz\n'
+    elif kind == 'dir_spaces':
+        src('print("x", t(%d), "yz")' % K)
+        d['directive'] = '  +ELLIPSIS ,  +NORMALIZE_WHITESPACE  '
+        d['dirprefix'] = '  #   doctest:'
+        d['want'] = lambda out: 'x ...\n   yz\n'
+    elif kind == 'dir_in_string':
+        src('print("# doctest: +SKIP", t(%d))' % K)
+    elif kind == 'dir_in_string2':
+        src('s%d = "# doctest: +ELLIPSIS"; print(len(s%d) + t(%d))' % (K, K, K))
+    elif kind == 'dir_in_tripstr_skip':
+        # the standard module's directive regex also fires on a line INSIDE a multi-line string (its documented
+        # false positive): it skips the example; xdoctest executes it
+        src('q%d = """' % K, '# doctest: +SKIP', '""" + str(t(%d))' % K)
+        d['directive'] = None
+        d['std_skips'] = True
+    elif kind == 'dir_in_tripstr_ell':
+        src("print('''a", '# doctest: +ELLIPSIS', "b''', t(%d))" % K)
+    elif kind == 'unknown_opt':
+        src('print(t(%d))' % K)
+        d['directive'] = '+NO_SUCH_OPTION_%d' % K
+    elif kind == 'dir_second_comment':
+        src('print("x", t(%d), "yz")  # a remark' % K)
+        d['directive'] = '+ELLIPSIS'
+        d['want'] = lambda out: 'x ... yz\n'
+    elif kind == 'ell_literal_dots':
+        src('print("wait...", t(%d), "done")' % K)
+        d['directive'] = '+ELLIPSIS'
+        d['want'] = lambda out: 'wait... ... done\n'
+    elif kind == 'printraise_multi':
+        src('print("before %d"); print("more"); raise ValueError("m%%d" %% t(%d))' % (K, K))
+        d['want'] = lambda out: '%s\n    ...\nValueError: m%d\n' % (TB, K)
+    elif kind == 'printraise_detail':
+        src('print("before %d"); raise ValueError("m%%d" %% t(%d))' % (K, K))
+        d['directive'] = '+IGNORE_EXCEPTION_DETAIL'
+        d['want'] = lambda out: '%s\n    ...\nValueError: not the same\n' % TB
+    elif kind == 'raise_then_stdout':
+        # the NEXT example's want must be matched on its own stdout only
+        src('print("early %d", t(%d)); {}["k%d"]' % (K, K, K))
+        d['want'] = lambda out: "%s\n    ...\nKeyError: 'k%d'\n" % (TB, K)
+    elif kind in ('oldstyle_blankline', 'oldstyle_blankline_t'):
+        src('for i in [t(%d)]:' % K, '    print("a\\n\\nb", i)', '    i')
+        d['want'] = lambda out: out.replace('\n\n', '\n<BLANKLINE>\n')
     elif kind == 'selfsyntax':
         # the example's OWN source does not compile: for the standard module that is the example's exception
         src('t(%d) +' % K)
@@ -322,7 +467,7 @@ def repl_run(specs):
     try:
         sys.displayhook = sys.__displayhook__
         for ex in specs:
-            if ex['directive'] and 'SKIP' in ex['directive']:
+            if ex.get('std_skips') or (ex['directive'] and '+SKIP' in ex['directive'].replace(' ', '')):
                 outs.append('')
                 continue
             buf = io.StringIO()
@@ -357,7 +502,7 @@ def render(specs, layout):
         for j, l in enumerate(src):
             text = ('>>> ' if j == 0 else '... ') + l if (l or j == 0) else '...'
             if j == dl:
-                text += '  # doctest: ' + ex['directive']
+                text += ex.get('dirprefix', '  # doctest:') + ' ' + ex['directive']
             lines.append(ind + text)
         if i in layout.get('bare_end', ()) and len(src) > 1 and ex['kind'] not in ('multi', 'multiexpr', 'multiprint', 'tripstr'):
             lines.append(ind + '...')
@@ -439,3 +584,71 @@ def xdoc_run(text):
                 if fp is not None:
                     info += ' | part: %r' % (getattr(fp, 'source', None),)
     return {'collected': len(exs), 'passed': ok, 'T': allT, 'error': info}
+
+
+def in_child(fn, *args):
+    """run fn(*args) in a forked child (fresh copy of this process's state), return its (picklable) result"""
+    import os
+    import pickle
+    r, w = os.pipe()
+    pid = os.fork()
+    if pid == 0:
+        try:
+            os.close(r)
+            try:
+                res = ('ok', fn(*args))
+            except BaseException as e:   # noqa
+                res = ('error', '%s: %s' % (type(e).__name__, e))
+            with os.fdopen(w, 'wb') as f:
+                pickle.dump(res, f)
+        finally:
+            os._exit(0)
+    os.close(w)
+    with os.fdopen(r, 'rb') as f:
+        data = f.read()
+    os.waitpid(pid, 0)
+    if not data:
+        return ('error', 'child died')
+    return pickle.loads(data)
+
+
+def _short(o):
+    return {'collected': o['collected'], 'passed': o['passed'], 'T': o['T']}
+
+
+def xdoc_run_seq(texts, order, rerun):
+    """the docstrings `texts` collected and run in ONE process in the given order (indexes into texts, with
+    repetitions); rerun[j] = run the same DocTest objects of step j a second time. Returns one outcome per step
+    (and per re-run): (step, index, 'first'|'again', {collected, passed, T})"""
+    from xdoctest import core
+    out = []
+    for j, i in enumerate(order):
+        text = texts[i]
+        # `single`-mode parts go through CPython's display hook, which binds builtins._ for the whole process (the
+        # standard module does the same): not xdoctest state, removed between the steps
+        if hasattr(builtins, '_'):
+            del builtins._
+        with contextlib.redirect_stdout(io.StringIO()), contextlib.redirect_stderr(io.StringIO()):
+            try:
+                exs = list(core.parse_docstr_examples(text, callname='t%d' % i, modpath=None, style='freeform'))
+            except Exception as e:
+                out.append((j, i, 'first', {'collected': 0, 'passed': False, 'T': [], 'error': 'parse:' + type(e).__name__}))
+                continue
+            for which in (['first', 'again'] if rerun[j] else ['first']):
+                if hasattr(builtins, '_'):
+                    del builtins._
+                allT = []
+                ok = bool(exs)
+                for ex in exs:
+                    ns, T = make_namespace()
+                    ex.mode = 'native'
+                    ex.global_namespace.update(ns)
+                    try:
+                        summ = ex.run(on_error='return', verbose=0)
+                    except BaseException as e:   # noqa
+                        summ = {'passed': False, 'failed': True}
+                    allT += list(T)
+                    if not summ.get('passed') and not summ.get('skipped'):
+                        ok = False
+                out.append((j, i, which, {'collected': len(exs), 'passed': ok, 'T': allT}))
+    return out
